@@ -58,7 +58,7 @@ def run(ctx) -> None:
                     ok = bool(ds) and all(isinstance(v, ast.Call) and any(cal.func == cans for cal in db.resolve_call(v, impl)) and v.args and src(v.args[0]) == src(g_arg) for d, v in ds)
                     why = "active set = compute_active_node_set(<same graph>)" if ok else "the active set handed to the scheduler is not compute_active_node_set of the graph being run"
                 rep.add("C16.R1", f"{impl.qname}:get_ready_nodes#{n_calls}", ok, f"{impl.module.rel}:{n.lineno}", why)
-        if n_calls < 2:
+        if n_calls < 1:
             raise AnalysisError(f"{impl.qname}: scheduler calls not found")
     # computed from the current entry points, no cached view
     rets = [n for n in walk_local(cans.node) if isinstance(n, ast.Return) and n.value is not None and not (isinstance(n.value, ast.Constant) and n.value.value is None)]
